@@ -32,7 +32,9 @@ EXTENDS PageTreeOps, TLC, Json
 CONSTANTS N,            \* at most N nodes
           K,            \* at most K /Kids entries per node
           E,            \* at most E /Kids entries in the whole document
-          Attrs,        \* inheritable attribute kinds in play (subset of Resources, MediaBox, CropBox, Rotate)
+          Attrs,        \* page attribute kinds in play (Resources, MediaBox, CropBox, Rotate; Annots)
+          Inheritable,  \* those of them that PDFPage.INHERITABLE_ATTRS lists (Annots is not inherited)
+          OwnSets,      \* the sets of kinds a node's own dictionary may carry (SUBSET Attrs: all placements)
           CatAttrs,     \* attribute kinds the catalog may carry
           RootKinds,    \* kinds the object behind catalog /Pages may have
           Kinds,        \* kinds of the other nodes
@@ -44,8 +46,9 @@ CONSTANTS N,            \* at most N nodes
 VARIABLES g, cat, pagenos, maxpages,     \* the input
           stack, visited, call, pc,      \* depth_first_search: frames [node, props, idx], visited set, pending call
           produced,                      \* pages produced by create_pages: <<[node, props]>>
-          yielded, broke, fired          \* get_pages: zero-based indices yielded; loop left by `break`
-vars == <<g, cat, pagenos, maxpages, stack, visited, call, pc, produced, yielded, broke, fired>>
+          yielded, broke, fired,         \* get_pages: zero-based indices yielded; loop left by `break`
+          ylabs                          \* the label index each yielded page carries (PDFPage.label)
+vars == <<g, cat, pagenos, maxpages, stack, visited, call, pc, produced, yielded, broke, fired, ylabs>>
 
 NoProps == [a \in Attrs |-> NONE]
 RootParent(c) == IF "CatalogInherits" \in Dev THEN [a \in Attrs |-> IF a \in c THEN CAT ELSE NONE] ELSE NoProps
@@ -57,7 +60,7 @@ Init == /\ g = <<>>
         /\ stack = <<>> /\ visited = {}
         /\ call = [t |-> 0, pp |-> RootParent(cat)]     \* depth_first_search(catalog["Pages"], catalog)
         /\ pc = "call"
-        /\ produced = <<>> /\ yielded = <<>> /\ broke = FALSE
+        /\ produced = <<>> /\ yielded = <<>> /\ broke = FALSE /\ ylabs = <<>>
         /\ fired = IF cat # {} /\ "CatalogInherits" \in Dev THEN {"CatalogInherits"} ELSE {}
 
 Top        == stack[Len(stack)]
@@ -74,23 +77,23 @@ UsedSlots == SumNk(g)
 AReveal ==
   /\ pc = "call" /\ call.t = 0
   /\ \E kind \in (IF g = <<>> THEN RootKinds ELSE Kinds) :
-       \E own \in (IF kind = "Other" THEN {{}} ELSE SUBSET Attrs),    \* nothing is ever read from an "Other" node
+       \E own \in (IF kind = "Other" THEN {{}} ELSE OwnSets),    \* nothing is ever read from an "Other" node
           nk \in (IF kind = "Pages" THEN 0..Min(K, E - UsedSlots) ELSE {0}) :
          LET new == [kind |-> kind, own |-> own, nk |-> nk, kids |-> <<>>]
              old == IF stack = <<>> THEN g ELSE [g EXCEPT ![Top.node].kids = Append(@, Len(g) + 1)]
          IN g' = Append(old, new)
   /\ call' = [call EXCEPT !.t = Len(g) + 1]
-  /\ UNCHANGED <<stack, visited, pc, produced, yielded, broke, fired>> /\ InputSame
+  /\ UNCHANGED <<stack, visited, pc, produced, yielded, broke, fired, ylabs>> /\ InputSame
 
 \* ---------------------------------------------------------------- depth_first_search
 \* `if object_id in visited: return`
 ASkipVisited ==
   /\ pc = "call" /\ call.t # 0 /\ call.t \in visited
   /\ pc' = Resume(stack)
-  /\ UNCHANGED <<g, stack, visited, call, produced, yielded, broke, fired>> /\ InputSame
+  /\ UNCHANGED <<g, stack, visited, call, produced, yielded, broke, fired, ylabs>> /\ InputSame
 
 Entering(kind) == pc = "call" /\ call.t # 0 /\ call.t \notin visited /\ g[call.t].kind = kind
-Props == Inherit(call.t, g[call.t].own, call.pp, Attrs)
+Props == Inherit(call.t, g[call.t].own, call.pp, Attrs, Inheritable)
 
 \* Type Pages: visited.add, inheritance copy, start the Kids loop
 AEnterPages ==
@@ -98,22 +101,22 @@ AEnterPages ==
   /\ visited' = visited \cup {call.t}
   /\ stack' = Append(stack, [node |-> call.t, props |-> Props, idx |-> 0])
   /\ pc' = "loop"
-  /\ UNCHANGED <<g, call, produced, yielded, broke, fired>> /\ InputSame
+  /\ UNCHANGED <<g, call, produced, yielded, broke, fired, ylabs>> /\ InputSame
 
 \* Type Page: visited.add, inheritance copy, `yield (object_id, object_properties)`
 AEnterPage ==
   /\ Entering("Page")
   /\ visited' = visited \cup {call.t}
-  /\ produced' = Append(produced, [node |-> call.t, props |-> Props])
+  /\ produced' = Append(produced, [node |-> call.t, props |-> Props, lab |-> Len(produced)])   \* next(page_labels)
   /\ pc' = IF broke THEN Resume(stack) ELSE "page"
-  /\ UNCHANGED <<g, stack, call, yielded, broke, fired>> /\ InputSame
+  /\ UNCHANGED <<g, stack, call, yielded, broke, fired, ylabs>> /\ InputSame
 
 \* any other Type (or none, or not a dictionary): visited.add, nothing produced, Kids not followed
 AEnterOther ==
   /\ Entering("Other")
   /\ visited' = visited \cup {call.t}
   /\ pc' = Resume(stack)
-  /\ UNCHANGED <<g, stack, call, produced, yielded, broke, fired>> /\ InputSame
+  /\ UNCHANGED <<g, stack, call, produced, yielded, broke, fired, ylabs>> /\ InputSame
 
 \* `for child in list_value(Kids): yield from depth_first_search(child, object_properties, visited)`
 Targets == (IF AllowBack \/ Len(g) >= N THEN 1..Len(g) ELSE {}) \cup (IF Len(g) < N THEN {0} ELSE {})
@@ -124,14 +127,14 @@ ALoopKid ==
        /\ g' = IF t = 0 THEN g ELSE [g EXCEPT ![Top.node].kids = Append(@, t)]
   /\ stack' = [stack EXCEPT ![Len(stack)].idx = @ + 1]
   /\ pc' = "call"
-  /\ UNCHANGED <<visited, produced, yielded, broke, fired>> /\ InputSame
+  /\ UNCHANGED <<visited, produced, yielded, broke, fired, ylabs>> /\ InputSame
 
 \* Kids exhausted: the generator frame returns
 ALoopEnd ==
   /\ pc = "loop" /\ Top.idx = g[Top.node].nk
   /\ stack' = SubSeq(stack, 1, Len(stack) - 1)
   /\ pc' = Resume(stack')
-  /\ UNCHANGED <<g, visited, call, produced, yielded, broke, fired>> /\ InputSame
+  /\ UNCHANGED <<g, visited, call, produced, yielded, broke, fired, ylabs>> /\ InputSame
 
 \* ---------------------------------------------------------------- get_pages, one produced page at a time
 PageNo == Len(produced) - 1          \* enumerate(create_pages(doc))
@@ -145,12 +148,13 @@ ASelSkip ==
        ELSE /\ broke' = MaxReached(maxpages, PageNo)
             /\ fired' = fired
   /\ pc' = Resume(stack)
-  /\ UNCHANGED <<g, stack, visited, call, produced, yielded>> /\ InputSame
+  /\ UNCHANGED <<g, stack, visited, call, produced, yielded, ylabs>> /\ InputSame
 
 \* `yield page` followed by `if maxpages and maxpages <= pageno + 1: break`
 ASelYield ==
   /\ pc = "page" /\ ~Skipped(pagenos, PageNo)
   /\ yielded' = Append(yielded, PageNo)
+  /\ ylabs' = Append(ylabs, produced[Len(produced)].lab)
   /\ broke' = MaxReached(maxpages, PageNo)
   /\ pc' = Resume(stack)
   /\ UNCHANGED <<g, stack, visited, call, produced, fired>> /\ InputSame
@@ -163,7 +167,7 @@ Spec == Init /\ [][Next]_vars
 
 \* ================================================================== the property (C04, tree part)
 Done == pc = "done"
-Ref  == RefPages(g, Attrs)
+Ref  == RefPages(g, Attrs, Inheritable)
 Intended == fired = {}
 
 TypeOK ==
@@ -193,6 +197,11 @@ SelectionSane ==
   /\ \A i \in 1..Len(yielded) : yielded[i] \in 0..(Len(produced) - 1) /\ (pagenos = {} \/ yielded[i] \in pagenos)
   /\ \A i \in 1..(Len(yielded) - 1) : yielded[i] < yielded[i + 1]
 
+\* a page carries the label of its zero-based index in document order - also when page_numbers / maxpages
+\* leave pages out (the labels are drawn where the pages are produced, not where they are selected)
+LabelByIndex == /\ \A i \in 1..Len(produced) : produced[i].lab = i - 1
+                /\ ylabs = yielded
+
 \* the action-by-action loop and the loop written as one recursive function agree
 LoopShape == Done => yielded = SelLoop(Len(produced), pagenos, maxpages, Dev)
 
@@ -209,6 +218,6 @@ Progress == [][LexLess(<<Unvisited', Slots(stack)', Len(stack)', Rank'>>, Measur
 \* ------------------------------------------------------------------ terminal states for the replay
 EmitTerminal ==
   Done => PrintT("@@" \o ToJson([g |-> g, cat |-> cat, pagenos |-> pagenos, maxpages |-> maxpages,
-                                 produced |-> produced, yielded |-> yielded, fired |-> fired,
+                                 produced |-> produced, yielded |-> yielded, ylabs |-> ylabs, fired |-> fired,
                                  ref |-> Ref, refsel |-> RefSelect(Len(Ref), pagenos, maxpages)]))
 =============================================================================
